@@ -785,6 +785,31 @@ def check_readdir(chk, tu):
                        'does not restart from the beginning' % (dname.replace('-', ' '), cname, len(bad), reach, sub),
                        site + ':no-reposition:' + dname, bad[0][1] if bad else None)
     chk.require(n >= 4, 'fd_readdir: only %d paths reach readdir()' % n)
+    # R14.15: "resumes correctly from any returned cookie": a continuation call (cookie != 0) on a descriptor without a stream is refused
+    # (BADF, the 'invalid cookie at start of readdir' guard), so every successful call - in particular one that reached the end of the
+    # directory, after which the cookies it and its predecessors returned are still valid - leaves the descriptor's stream in the table
+    m = 0
+    for dname, dval in (('closed-stream', 0), ('open-stream', OPEN)):
+        for cname, cookie in (('cookie=0', 0), ('cookie=unknown', unk('cookie', 'unsigned long long'))):
+            for blen in (100, 30):
+                bad = None
+                ok_paths = 0
+                for p in readdir_paths(tu, dval, cookie, buflen=blen):
+                    if p.aborted or p.ret != 0:
+                        continue
+                    ok_paths += 1
+                    final = p.state['table'][3]['dir']
+                    if (final is None or (isinstance(final, int) and final == 0)) and bad is None:
+                        ended = 'readdir-null' in [e[0] for e in p.events]
+                        bad = 'on the successful path %s%s the descriptor is left without a directory stream' % (
+                            p.cond_text()[:140], ' (end of directory reached)' if ended else '')
+                if not ok_paths:
+                    continue
+                m += 1
+                chk.expect(bad is None, 'R14.15', 'stream-kept-for-resumption[%s,%s,buflen=%d]' % (dname, cname, blen),
+                           'fd_readdir on an %s with %s: %s - a later call that resumes from a cookie returned earlier is refused with EBADF '
+                           'instead of delivering the remaining entries' % (dname.replace('-', ' '), cname, bad), site + ':stream-kept')
+    chk.require(m >= 4, 'fd_readdir: only %d successful path families for the stream-kept rule' % m)
     # dirent layout on the first entry
     buf = unk('buf')
     paths = readdir_paths(tu, OPEN, unk('cookie', 'unsigned long long'))
